@@ -204,6 +204,7 @@ pub fn check_c09(tier: &str) -> ! {
 	common_assumptions(&mut rep);
 	rep.assumptions.push("an owned collection nested inside a retrying collection is one unit: waiting for its second leaf while holding its first is not counted (its leaves are reachable only through it, in one fixed order)".into());
 	let progs = fam::fam_c09(thorough);
+	let _ = thorough;
 	let cfg = Cfg { retry_rounds: if thorough { 3 } else { 2 }, horizon: 200, verdict_props: vec!["C09".into(), "C01".into()], ..Cfg::default() };
 	let t = std::time::Instant::now();
 	let fr = run_family_with("R", &progs, &cfg, Some(&c09_hook));
